@@ -200,6 +200,7 @@ class Process(object):
         self.close_child_stdout = close_child_stdout
         self.close_child_stderr = close_child_stderr
         self.stopping = False
+        self.kill_failed = False
         # sockets created before fork, should be let go after.
         self._sockets = []
         self._worker = None
